@@ -183,7 +183,7 @@ def split_stdout(stdout, pages):
 
 
 def order_ok(seq, sources):
-    """Blocks of one directory contiguous and in sorted file-name order (by name or by stem, case-sensitively or not)."""
+    """Blocks of one directory contiguous and in sorted file-name order (case-sensitively or not)."""
     by_dir, pos = {}, {}
     for i, k in enumerate(seq):
         by_dir.setdefault(posixpath.dirname(k), []).append(k)
@@ -193,9 +193,7 @@ def order_ok(seq, sources):
         if max(idx) - min(idx) + 1 != len(ks):
             return False, f"pages of directory {d!r} are not contiguous"
         names = [sources.get(k, k) for k in ks]
-        stems = [posixpath.basename(k)[:-4] for k in ks]
-        ok = (names == sorted(names) or names == sorted(names, key=str.lower)
-              or stems == sorted(stems) or stems == sorted(stems, key=str.lower))
+        ok = names == sorted(names) or names == sorted(names, key=lambda n: (n.lower(), n))
         if not ok:
             return False, f"pages of directory {d!r} are printed in order {names}"
     return True, ""
